@@ -14,7 +14,7 @@ PROPS = {
                        "moves next: an interleaving is a shrinkable, replayable value. (S) Stress mode: 1-3 real gateway processes on one storage, 2-10 "
                        "parallel clients with 1-6 operations each, no hooks, monotonic clock stamps. Oracle for both: every 200 read must carry the body, "
                        "length, ETag, metadata and content type of one single write (else: torn read), and the history with its real-time order must be "
-                       "linearizable for a register holding 'absent' or a write (refused writes / deletes may or may not have taken effect)."),
+                       "linearizable for a register holding 'absent' or a write (refused writes / deletes may or may not have taken effect). A third of the scheduled cases stall one operation after k of its steps until the others are through; uploads declare a CRC32 and most reads ask for it (the checksum must belong to the same write); one write is the empty object. A quarter of the cases run with a versions store and bucket versioning enabled; writers are stalled as well as readers."),
         "level_note": "interleavings are explored at hook granularity (steps between two hooks are atomic for the explorer); the stress mode does not depend on hook placement. Versioned buckets and the sidecar metadata store are not part of this check. Exploration only.",
         "rule": ("case = (temp-file strategy, gateways, initial state, operations, schedule). Non-trivial: at least two operations were in flight together "
                  "(A) / a write overlapped another client's operation (S); distinct by the full case including the schedule."),
@@ -37,7 +37,7 @@ PROPS = {
                        "without duplicate ids); an acknowledged request must be in effect; an object acknowledged earlier is intact; no temporary name "
                        "is listed; an upload in progress is still listed with correct parts and can be completed, an uncompleted one aborted; a fresh "
                        "PUT / GET / DELETE of the key succeed; at the end the emptied bucket can be deleted. The thorough tier enumerates every point of "
-                       "every scenario (fault enumeration at hook granularity)."),
+                       "every scenario (fault enumeration at hook granularity). In a third of the cases nothing is written to the key after the restart, so that what the crash left is still there when the bucket is emptied and deleted (DeleteBucket must succeed; what blocks it is classified by the check's own walk)."),
         "level_note": ("Scenarios include the deletion of the current version by id (promotion of the previous one). After a kill that left an upload uncompleted every acknowledged part must still be listed and the completion repeatable. SIGKILL of a process loses no page cache: this is process-crash consistency, as the property states, not power loss. Crash points are "
                        "the hook points. Two open findings: the version id listed twice when a versioned overwrite / delete is killed between the archive "
                        "copy and the publication, and the sidecar store's metadata rewritten by path before publication; both are recognised by their "
@@ -65,7 +65,7 @@ PROPS = {
                        "proxy process. Every request goes to E and to P; the two answers must agree in status, error code, every response header "
                        "except Date / Last-Modified / Server / request ids, and body (XML compared canonically with LastModified / Initiated / "
                        "CreationDate / error Message blanked, empty elements dropped, upload ids mapped to placeholders); a proxy process that dies is a "
-                       "violation. At the end listing, uploads, ACL and policy of both sides must agree."),
+                       "violation. At the end listing, uploads, ACL and policy of both sides must agree. Also: Expires values that are no dates, ListMultipartUploads with either marker alone or both, CreateBucket for the bucket that exists (owner and non-owner)."),
         "level_note": ("Half of the cases create the bucket with ACLs enabled (PutBucketAcl is then really carried out); open finding C18-acl-does-not-fit-the-reserved-tag ends a case at the diverging PutBucketAcl. Two open findings narrow the oracle: bucket tagging is not implemented by the proxy backend (operations excluded by construction, "
                        "strict replay kept), and the Owner of listed objects is the backend account (difference tolerated only for exactly that element). "
                        "An upload the endpoint refuses before reading the body may race with the proxy's sdk client (reset while writing => 500): such a "
@@ -86,7 +86,7 @@ PROPS = {
                        "--event-webhook-url and a generated --event-filter file (absent / per-event booleans / wildcards). A receiver inside the harness "
                        "collects the records. After quiescence the multiset of records must equal the expectation: exactly one record per key "
                        "affected by a successful request whose event type passes the filter, none for failed requests, right bucket, byte-exact key, "
-                       "event type, size and ETag (for puts)."),
+                       "event type, size and ETag (for puts). The receiver answers 200, 201, 202 or 204. The receiver may reply with a body; batches hold up to 12 keys."),
         "level_note": "Keys include directory objects (ending in '/'). quiescence = all expected records arrived and 400 ms of silence, or 7 s (> 2x the sender's own client time-out). Two open findings narrow the oracle: size 0 in copy / multipart notifications, and batch-delete notifications for keys whose deletion failed. Exploration only.",
         "rule": ("case = (filter, clients, ops). Non-trivial: >= 2 clients and >= 1 failing request; distinct by the full case."),
         "assumptions": ["webhook delivery on loopback; kafka / nats senders are not exercised (no broker offline)"],
@@ -107,7 +107,7 @@ PROPS = {
                        "write (semantic equality), deleted settings are absent; (R) DeleteBucket racing PutObject / CreateMultipartUpload / "
                        "CompleteMultipartUpload / CreateBucket / a second DeleteBucket under a harness-owned schedule (the C05 machinery: every operation "
                        "parks at each filesystem-step hook on the bucket, a generated list of choices releases them): an upload that was acknowledged must "
-                       "be readable afterwards unless no DeleteBucket was acknowledged ... i.e. never both acknowledged with the object gone."),
+                       "be readable afterwards unless no DeleteBucket was acknowledged ... i.e. never both acknowledged with the object gone. (S) runs on the xattr and on the sidecar store, includes deleting and re-creating the bucket (a new bucket: nothing of the old one's settings applies) and ACLs written as documents with several grants per grantee. (D) DeleteBucket over buckets with files, directory objects at depth 1-3 and planted empty plain directories: 409 with every object intact while one exists, 204 afterwards. (S) also puts objects whose keys look like settings storage and treats a 5xx on a valid settings write as a violation."),
         "level_note": "The race part can stall an operation after k of its steps (sched.Starve), lets one client write a key twice in a row, has competing creations of a new bucket, and in versioned buckets demands that every acknowledged version survives a refused DeleteBucket. AWS-reserved name prefixes / suffixes (xn--, -s3alias ...) are not part of the rules checked. Exploration only.",
         "rule": ("N: non-trivial = a name of legal length and character set (the remaining rules decide); B: a create on an existing bucket or a paged "
                  "listing; S: a get after a put / delete of the same setting; R: two operations of the race were in flight together. Distinct by full case."),
@@ -131,7 +131,7 @@ PROPS = {
                        "without the bypass permission, with or without the bypass header. Model: protection ends only by an authorised legal-hold "
                        "OFF, by a GOVERNANCE bypass of a permission holder (root / admin with the header: outcome not judged), by removal of the "
                        "default rule, or by expiry. After every step, while the model says protected, GET of the version (by id when versioned) "
-                       "returns the original bytes; a COMPLIANCE retention is never shortened / downgraded, a GOVERNANCE one only by a permission holder."),
+                       "returns the original bytes; a COMPLIANCE retention is never shortened / downgraded, a GOVERNANCE one only by a permission holder. The retention may also come from the upload's x-amz-object-lock-* headers (mode spelled in three cases); deletes naming a version id the key does not have are among the destructive steps, also without a versions store. The protected object may be a directory object; a second policy style allows s3:* and then denies the bypass permission explicitly."),
         "level_note": "Also drawn: buckets without any bucket policy, a protected version that lies below an unprotected current one (protection by version id), batch deletes that carry the protected key among unprotected ones, an empty lock configuration (open finding, excluded). removing the bucket default retention rule ends the protection it gave (the gateway keeps no per-object copy of a default retention; recorded as a modelling decision, see DESIGN.md). In-process engine. Exploration only.",
         "rule": ("case = (versioned, sidecar, protection, bob's bypass permission, ops). Non-trivial: a destructive request was accepted while protection was in "
                  "force (legitimately or not) or a weakening was refused; distinct by the full case."),
@@ -150,7 +150,7 @@ PROPS = {
                        "markers (enabled: every write pushes a fresh distinct id; otherwise the null version is replaced). After every step GET of "
                        "every key equals the top of its stack (404 for a marker / nothing), at the end every live version is retrievable byte-"
                        "exact with its own metadata under its id, and the complete version listing equals the model: same (key, id) set, versions "
-                       "vs markers, exactly the top flagged latest, no duplicates, pagination terminates."),
+                       "vs markers, exactly the top flagged latest, no duplicates, pagination terminates. Every version check is repeated with HEAD by version id; a copy of a key onto itself with replaced metadata is a write like any other (enabled and suspended). Also: refused uploads (the versions must stay as they were), copies by version id, delimiters in the version listing."),
         "level_note": "a delete of a key that never existed may or may not create a marker (both accepted); directory-marker keys are excluded by the statement. In-process engine. Exploration only.",
         "rule": ("case = (sidecar, pre ops, ops). Non-trivial: the program deletes the current version / marker while older entries exist, or a null version "
                  "predates enabling; distinct by the full case."),
@@ -170,7 +170,7 @@ PROPS = {
                        "number. Checks: complete succeeds only if the selection is valid (existing, strictly ascending, current ETags, all but the "
                        "last >= 5 MiB); then GET = concatenation (streamed MD5), ETag = md5(md5s)-N, metadata of the initiation; otherwise the "
                        "key reads exactly as before; part ETag = MD5 of the exact source interval for copies; listings equal the model; parts / "
-                       "uploads never show as objects; closed uploads answer NoSuchUpload; open uploads keep exactly their parts."),
+                       "uploads never show as objects; closed uploads answer NoSuchUpload; open uploads keep exactly their parts. Scripted uploads number their parts 1..5 or with mixed digit counts (2, 10, 11, 100 ...), list their parts in pages from markers, and ListMultipartUploads is followed in pages of max-uploads through both next markers. CompleteMultipartUpload may state x-amz-mp-object-size (right, zero, wrong, negative)."),
         "level_note": "a valid completion that is refused is not judged (the statement is 'only if'); open-ended copy ranges are accepted when honoured exactly. In-process engine, xattr or sidecar, both temp-file strategies. Exploration only.",
         "rule": ("case = (config, ops). Non-trivial: an upload with >= 2 parts is completed, or a completion uses a re-uploaded part, or two uploads are open "
                  "for the same key; distinct by the full case."),
@@ -189,7 +189,7 @@ PROPS = {
                        "with COPY / REPLACE metadata and tagging directives, get / head / GetObjectAttributes / GetObjectTagging / ListObjectsV2, "
                        "and SIGTERM / SIGKILL restarts; bodies from a boundary-size table (0 ... 1 MiB+1, 5 MiB parts), keys built from URL-reserved "
                        "and multi-byte characters, deep nesting and 255-byte segments. After every acknowledged upload each read through any "
-                       "process must return exactly the model's bytes, length, ETag (MD5 / multipart ETag), headers, metadata, tags, checksums."),
+                       "process must return exactly the model's bytes, length, ETag (MD5 / multipart ETag), headers, metadata, tags, checksums. The final sweep reads every key's tag set as well (tags must survive copies with either directive). (D) directory objects: successive PUTs of one with different user metadata - HEAD / GET show exactly the last one's. Metadata names come from a small pool half of the time; a third of the multipart uploads carry a FULL_OBJECT checksum; copies may ask for a checksum; content headers the last write did not supply must be absent."),
         "level_note": "Multipart uploads use part numbers that need not start at 1 nor be contiguous; user metadata values may be empty; a CopyObject answered NoSuchKey for a key HEAD finds is a violation. an upload that is refused is 'not acknowledged' and only counted; Content-Encoding of aws-chunked uploads and the ETag of a copied multipart object are not judged. Open finding C01-sidecar-stale-attributes narrows the attribute comparison for overwritten keys in sidecar mode to 'supplied attributes are present'. Exploration only.",
         "rule": ("case = (config, nproc, keys, ops). Non-trivial: the program reads an acknowledged object through a different process than the one that "
                  "acknowledged it, or after a restart, or the key contains URL-reserved characters; distinct by the full case."),
@@ -208,7 +208,7 @@ PROPS = {
                        "x-amz-content-sha256 signed consistently, wrong checksum header / trailer, payload bit flip after signing, chunk / trailer "
                        "signature damaged, decoded length larger / smaller, chunk size larger, body cut short, stream truncated at a chunk boundary, "
                        "bytes after the final chunk) or none. Corrupted => not 2xx and GET / ListParts show exactly the prior state; control => "
-                       "2xx and the stored object is exactly the sent bytes with ETag = MD5 and the new metadata. In-process and real process over TCP."),
+                       "2xx and the stored object is exactly the sent bytes with ETag = MD5 and the new metadata. In-process and real process over TCP. A wrong digest is the digest of other content, or the right digest with one letter's case, its last data bit or a padding bit changed. Further corruptions: an unimplemented streaming type announced, absent chunk signatures, a trailer under another name."),
         "level_note": "bytes after the terminating chunk are outside the declared payload: accepting them is tolerated as long as the stored object is exactly the payload. Exploration only.",
         "rule": ("case = (config, target, prior, mode, algo, md5?, checksum header?, size, chunks, fragments, corruption, arg, engine). Non-trivial: a "
                  "corruption is present and effective; distinct by the tuple without arg."),
@@ -228,7 +228,7 @@ PROPS = {
                        "admin or (policy set ? some Allow matches and no Deny matches, for any of the operation's acceptable S3 actions on the exact "
                        "resource : ACL grants the permission). Only the sound direction is demanded: not allowed => not 2xx, byte-level snapshot "
                        "unchanged, no stored content in the answer, every key of a batch delete the caller may not delete survives; and if the "
-                       "identical request succeeds for root the refusal must be exactly 403 AccessDenied."),
+                       "identical request succeeds for root the refusal must be exactly 403 AccessDenied. A fifth of the policy cases are 'aimed': a broad Allow plus a Deny derived from the very key of the request (key, directory/*, patterns), keys include directory objects, copy sources come with a leading slash / version suffix, one statement in twelve cases spells its Effect in another case (refused, or binding once accepted). Near-miss aimed policies allow the actions whose names resemble the needed one; the catalogue has GET / HEAD / DELETE of the null version; ACL grants are written in the gateway's own header syntax."),
         "level_note": "each operation maps to a set of acceptable actions (over-approximation of 'allowed' keeps the check sound); version-id routes are left to C09/C10. Exploration only.",
         "rule": ("case = (policy | ACL, op, bucket, key, copy source, caller, batch keys). Non-trivial: the model denies and the identical request by root "
                  "succeeds, or the request is a batch delete; distinct by the full tuple."),
@@ -247,7 +247,7 @@ PROPS = {
                        "is substituted into a valid request of the catalogue, spelled raw in the request line, percent-encoded (upper / lower / "
                        "mixed) or double-encoded, signed for an account authorised for bucket A only (or root). Oracle: the byte-level snapshot of the "
                        "whole sandbox except bucket A's own storage is unchanged, the answer contains no canary from outside A, and no outside "
-                       "canary has been pulled into A's files. Gateways and the test process run as an unprivileged uid."),
+                       "canary has been pulled into A's files. Gateways and the test process run as an unprivileged uid. One hostile value is the staged part of another object's multipart upload spelled as a key: no request naming it as an object may read, change or list it. Version ids get the depth of the versions store, the copy source may be a versioned key, a hostile batch key sits alone, first or between harmless ones, and a third generator spells the staging area with leading separators."),
         "level_note": "Hostile depths are weighted by what the parameter is joined to (storage root vs bucket), callers include an admin, and a hostile query parameter may be accompanied by a harmless second occurrence before or after it. escape depth is bounded by the sandbox (11 levels); root naming another bucket by a clean name is authorised for that bucket. Exploration only.",
         "rule": ("case = (config, op, key, caller, parameter, hostile string, spelling, engine). Non-trivial: the hostile value, joined lexically to the directory "
                  "the parameter is relative to, designates a location outside bucket A's storage; distinct by the full tuple."),
@@ -266,7 +266,7 @@ PROPS = {
                        "documents), path tails, aws-chunked bodies with hostile framing. Plus a sweep that enumerates operation x own parameter x all "
                        "26 numeric boundary values and operation x hostile document. After each request: no panic anywhere in the in-process chain / "
                        "the real process is alive, the answer arrives within 30 s and parses as HTTP with an S3 <Error> document (or a plain 4xx of the "
-                       "HTTP layer), allocations stay below 256 MiB + 16x the bytes actually sent (no allocation sized by a merely declared number), and ListBuckets by root still answers 200."),
+                       "HTTP layer), allocations stay below 256 MiB + 16x the bytes actually sent (no allocation sized by a merely declared number), and ListBuckets by root still answers 200. The fixture holds several uploads in progress (marker sweeps over ListMultipartUploads); one subprocess world runs with --access-log. The body sweep includes 52 policy documents with hostile field values; the subprocess world runs with a one second account cache."),
         "level_note": "Also mutated after signing: X-Amz-Date / Authorization / X-Amz-Content-Sha256 cut at 16 lengths; aws-chunked trailer line out of shape (6 forms); the sweep (run completely in both tiers) empties / drops every leaf of each operation's document and sends every hostile document to the ACL operations on a bucket with ACLs enabled. bounded time is a 30 s hang detector, not a latency bound; a 5xx with a well-formed error document is accepted (the statement asks for well-formedness, not for a specific status). Exploration only.",
         "rule": ("case = (config, op, target, caller, mutations, bad-auth, chunk hack, engine); every case is non-trivial (at least one field is hostile); distinct by the full tuple."),
         "assumptions": ["in-process engine replicates runGateway wiring; TestC20P observes death of the shipped binary directly", "event sender, audit logger and metrics are off"],
@@ -285,7 +285,7 @@ PROPS = {
                        "correctly signed, is sent to a gateway in read-only mode that shares its storage with a normal gateway. Oracle: the "
                        "snapshot of root + versioning + sidecar directories is unchanged; if the same request changes the storage on the normal "
                        "twin the read-only gateway must have answered 4xx; a read request gets the same status and body from both. The "
-                       "real-process share runs `versitygw --readonly` (flag plumbing of cmd/versitygw)."),
+                       "real-process share runs `versitygw --readonly` (flag plumbing of cmd/versitygw). The read-only world contains a bucket directory that was not made through the gateway."),
         "level_note": "admin API routes are not S3 API requests and are left out; the in-process twin pair runs in one process on one sandbox. Exploration only.",
         "rule": ("case = (config, op, bucket, key, slash, copy source, caller, presign, chunked, engine). Non-trivial: the read-write twin mutates "
                  "(in-process) / the catalogue marks the op as mutating (process); distinct by the full tuple."),
@@ -304,7 +304,7 @@ PROPS = {
                        "date skew/scope/expiry ...) x body kind (none, small, 64 KiB, aws-chunked, declared-but-short). The damaged request must "
                        "be answered 4xx, leave the snapshot of root+versioning+sidecar+IAM+outside directories unchanged and disclose no canary; "
                        "the undamaged twin shows whether the route does anything for a valid caller. In-process engine (fresh gateway + fixture per "
-                       "case) for volume, the shipped binary for the real wiring."),
+                       "case) for volume, the shipped binary for the real wiring. Presigned requests carry an x-id parameter; presigned defects include a date ahead of the clock and a signed value that now ends in a URL delimiter followed by another parameter. Further defects: the right signature in another written form (case, appended text), an altered body accompanied by a fitting Content-MD5, bodies sent with chunked transfer coding (no announced length)."),
         "level_note": "Defect kinds include a duplicated signed header (second occurrence with another value) and an alteration confined to the data of the last aws-chunked chunk; a second Host / Content-Type / X-Amz-Date is not judged (single-valued in the HTTP layer resp. replaced by the verifier before use). a damaged request that still carries a correct proof according to the harness' signer is discarded and counted, never judged; a presigned URL dated in the future is not treated as a defect (the statement does not list it). Exploration only.",
         "rule": ("case = (config, catalogue op, bucket, key, slash, caller, header/presign, body kind, defect, arg, short). Non-trivial: the undamaged twin "
                  "succeeded (in-process) / the catalogue marks the route as mutating (real process); distinct by (op, bucket, key, slash, defect, body, presign, short, engine)."),
@@ -324,7 +324,7 @@ PROPS = {
                        "the history must be linearizable w.r.t. a map of accounts (all attributes). (S) real goroutines mutate auth.NewInternal "
                        "concurrently; the observed history must be linearizable and users.json must parse and equal the model. (B) through a real "
                        "gateway process: create => first request works (and, as root with --chuid/--chgid, files carry the account's uid/gid); "
-                       "secret change => old 403 / new 200; delete => 403; concurrent admin mutations => list-users equals the model."),
+                       "secret change => old 403 / new 200; delete => 403; concurrent admin mutations => list-users equals the model. (F) one account through one client, sequentially: the account (role admin) or root changes its secret; header and presigned requests with the current and with replaced secrets have exactly one allowed outcome each. Access keys of the end-to-end layer contain '+' and percent sequences in a third of the cases."),
         "level_note": "Authentication probes of the end-to-end part use the Authorization header or a presigned URL. interleavings are explored at the granularity of the service call boundary (before / after effect); ops blocked on locks inside the code are recognised by a 4 ms quiescence rule which can only lengthen recorded intervals (sound). Staleness across different gateway processes is outside the statement.",
         "rule": ("A: (pre-existing keys, <=7 ops, <=24 schedule choices); non-trivial: a lookup overlaps a mutation of the same key in real time or a created "
                  "account has a non-zero uid/gid. S: non-trivial: >= 2 mutations of one key overlap. B: every program is non-trivial (it contains a change followed by use)."),
@@ -346,7 +346,7 @@ PROPS = {
                        "/ resource JSON shape, exact / s3:* / trailing-* actions, resource globs) vs 'some Allow matches and no Deny matches', plus "
                        "invariance under statement permutation and string<->array re-shaping; (D) documents made invalid for one known reason "
                        "(15 reasons from the statement) must be refused, identically on 26 repetitions, while the valid control is accepted; "
-                       "(B) through the gateway: refused PUT leaves the previous policy byte-exact, model decisions confirmed with real GetObject."),
+                       "(B) through the gateway: refused PUT leaves the previous policy byte-exact, model decisions confirmed with real GetObject. Subjects of the matcher contain literal '*' and '?'."),
         "level_note": "oracle = model/policy.go written from the statement; '?' is judged only where the byte and the character reading agree. Exploration only.",
         "rule": ("G: (pattern, subject) over {a,b,/,*,?} and a wider alphabet, subjects derived from the pattern then perturbed; non-trivial: >= 2 wildcards. "
                  "E: non-trivial: >= 2 statements of both effects and the query matches at least one statement. D/B: non-trivial: the document "
@@ -367,7 +367,7 @@ PROPS = {
                        "nesting, explicit directory objects, keys that are prefixes of others) are listed with generated prefix / delimiter "
                        "(incl. multi-character and non-'/') / max-keys / marker; the concatenation of the pages obtained by following the returned "
                        "markers must equal the S3 listing rule's sequence exactly once, each page <= max-keys and ascending, pagination must "
-                       "terminate, bookkeeping names never appear, sizes and ETags are the objects' (layer B)."),
+                       "terminate, bookkeeping names never appear, sizes and ETags are the objects' (layer B). Prefixes include strings that are no paths (//, /a/, x//, ./). Also: names equal to the bookkeeping directory's below the top level, prefixes into the bookkeeping directory with an upload in progress."),
         "level_note": "model/listing.go is the oracle; where S3 leaves a choice (marker strictly inside a common-prefix group) both sequences are accepted. Preconditions of the posix mapping are generator constraints (file/directory clash; a directory object with children is only a prefix under delimiter listings; plain empty directories are not reachable through the API).",
         "rule": ("cases = (files, explicit directory objects, prefix, delimiter, marker, max-keys[, V1/V2, raw max-keys]). Non-trivial: the listing has "
                  ">= 2 pages, or the delimiter groups keys, or directory-walk order differs from key order; distinct by the full tuple."),
@@ -406,7 +406,7 @@ PROPS = {
         "level_text": ("Generated-input search: every Range string class of the quantifier x object sizes incl. 0 and 1 is compared "
                        "with a reference model of the statement, both on the exported parser and through the full request path "
                        "(status, Content-Range, Content-Length, body bytes). Exploration, not proof: absence of violations is only "
-                       "established for the cases generated."),
+                       "established for the cases generated. Also: a directory object (zero bytes, GET and HEAD), objects with text / json content types and requests with Accept-Encoding (no Content-Encoding may appear)."),
         "level_note": "trusts the harness' own SigV4 client and the in-process wiring shim (copied from runGateway); model/rangespec.go states which answers are accepted where the statement leaves a choice",
         "rule": ("Range strings drawn from a grammar (a-b, a-, -n, multi, reversed, huge, signs, white space, "
                  "other units, garbage) x object sizes {0,1,2,3,10,4096,70001,(A: any <=100000)}; layer A calls "
